@@ -10,6 +10,7 @@ import (
 	"hash"
 	"os"
 	"path/filepath"
+	"time"
 
 	"github.com/OneOfOne/xxhash"
 	"github.com/spaolacci/murmur3"
@@ -109,6 +110,9 @@ func runC20(rc *RunCtx) {
 			{length: l, seed: 11, chunks: chunks, outcome: 1 + fk, at: k, errVal: scriptedErr(ch, "errkind")},
 			{length: l/2 + 1, seed: 12, chunks: chunks, outcome: 0},
 		}
+	} else if ch.Intn("concurrent", 8) == 0 {
+		runC20Concurrent(rc, algo)
+		return
 	} else {
 		n := 1 + ch.Intn("ncalc", 5)
 		for i := 0; i < n; i++ {
@@ -268,4 +272,68 @@ func (z *zeroSizeFs) OpenFile(name string, flag int, perm os.FileMode) (afero.Fi
 		return nil, err
 	}
 	return zeroSizeFile{f}, nil
+}
+
+// runC20Concurrent: several files hashed at the same time through ONE filesystem object, the reads interleaved by the
+// seeded scheduler at backend-operation granularity: every call must return the digest of its own file.
+func runC20Concurrent(rc *RunCtx, algo string) {
+	ch, res := rc.Ch, rc.Res
+	n := 2 + ch.Intn("nfiles", 3)
+	contents := make([][]byte, n)
+	for i := range contents {
+		contents[i] = genBytes(uint64(1+ch.Intn("seed", 1<<20)), []int{0, 1, 5000, 40000, 70000, 200000}[ch.Intn("size", 6)])
+	}
+	res.Config = fmt.Sprintf("algo=%s concurrent file hashes through one filesystem object, sizes=%v", algo, func() (l []int) {
+		for _, c := range contents {
+			l = append(l, len(c))
+		}
+		return
+	}())
+	res.NonTrivial = true
+	res.Fault("concurrent-file-hashes")
+	got := make([]string, n)
+	errs := make([]error, n)
+	var sim *Sim
+	dl := Bubble(rc.T, func() {
+		sim = NewSim(ch)
+		sim.MaxSteps = 20000
+		sim.Deadline = time.Now().Add(30 * time.Second)
+		disk := NewSimDisk()
+		direct := disk.View(0)
+		_ = direct.MkdirAll("/data", 0o755)
+		for i, c := range contents {
+			f, _ := direct.Create(fmt.Sprintf("/data/f%d.bin", i))
+			_, _ = f.Write(c)
+			_ = f.Close()
+		}
+		seam := NewSeam(disk.View(1), 1)
+		sim.Attach(seam)
+		vfs := filesystem.NewVirtualFileSystem(seam, filesystem.Custom, filesystem.IdentityPathConverterFunc)
+		for i := 0; i < n; i++ {
+			i := i
+			sim.Go(fmt.Sprintf("hasher%d", i), func() {
+				sim.Yield(1, fmt.Sprintf("start%d", i))
+				got[i], errs[i] = vfs.FileHashWithContext(context.Background(), algo, fmt.Sprintf("/data/f%d.bin", i))
+			})
+		}
+		sim.Run(nil)
+	})
+	if sim == nil {
+		res.Infra = "bubble did not start: " + dl
+		return
+	}
+	res.Digest = sim.Trace.Digest()
+	res.Steps = sim.Steps
+	if dl != "" || sim.Outcome != "" {
+		res.Outcome = "budget-or-deadlock"
+		return
+	}
+	for i := range contents {
+		if want := refDigest(algo, contents[i]); errs[i] != nil || got[i] != want {
+			res.Violate("wrong-digest", "file-hash|concurrent-calls-on-one-filesystem-object", fmt.Sprintf("%s: file %d (%d bytes): digest %q err=%v, reference %s", res.Config, i, len(contents[i]), got[i], errs[i], want))
+		}
+	}
+	if rc.KeepTrace {
+		res.Trace = append([]string{res.Config}, sim.Trace.Lines...)
+	}
 }
